@@ -170,11 +170,22 @@ class UpdateInputs(Unit):
             if dat is None:
                 ctx.ensure(f"input {inn}: data has the buffer's pytree structure", z3.BoolVal(False))
                 continue
-            ctx.ensure(f"C01/C07 input {inn}: sequence numbers, send and receive times are the scheduled window of producer {outn}",
-                       z3.And(aw.same(i.f["seq"], wv.f["seq"]), aw.same(i.f["ts_sent"], wv.f["ts_sent"]), aw.same(i.f["ts_recv"], wv.f["ts_recv"])), props=("C01", "C08"))
+            # C01: "only the sequence numbers of not-yet-filled window entries may differ (any negative value means 'default output')" - so the reported numbers are pinned where the
+            # schedule names a message (>= 0) and only have to stay negative where it names none
+            seq_ok = seq_as_scheduled(i.f["seq"], wv.f["seq"])
+            ctx.ensure(f"C01/C07 input {inn}: sequence numbers (of filled entries; unfilled ones stay negative), send and receive times are the scheduled window of producer {outn}",
+                       z3.And(seq_ok, aw.same(i.f["ts_sent"], wv.f["ts_sent"]), aw.same(i.f["ts_recv"], wv.f["ts_recv"])), props=("C01", "C08"))
             ctx.ensure(f"C08 input {inn}: entry j is read from slot window.seq[j] mod size of producer {outn}'s output buffer",
                        z3.And(dat.n == wv.f["seq"].n, z3.ForAll([j], z3.Implies(z3.And(0 <= j, j < wv.f["seq"].n), z3.Select(dat.a, j) == z3.Select(b.a, PYMOD(z3.Select(wv.f["seq"].a, j), size))))), props=("C08", "C01"))
             ctx.ensure(f"input {inn}: the previous delay distribution is kept", z3.BoolVal(i.f["delay_dist"] is prev[inn].f["delay_dist"]), props=("C10", "C01"))
+
+
+def seq_as_scheduled(iseq, wseq):
+    """reported sequence numbers vs the schedule's: equal where the schedule names a message (>= 0), negative where it names none (C01: 'any negative value means default output')"""
+    if not (isinstance(iseq, Arr) and isinstance(wseq, Arr)):
+        return z3.BoolVal(False)
+    j = z3.Int("j!sq")
+    return z3.And(iseq.n == wseq.n, z3.ForAll([j], z3.Implies(z3.And(0 <= j, j < wseq.n), z3.If(z3.Select(wseq.a, j) >= 0, z3.Select(iseq.a, j) == z3.Select(wseq.a, j), z3.Select(iseq.a, j) < 0))))
 
 
 class UpdateInputsDelay(Unit):
@@ -217,7 +228,7 @@ class UpdateInputsDelay(Unit):
         ctx.ensure("C10/C11 the delay is applied with the PRODUCER's rate (what the window extension was sized with) and the slot's own start time",
                    z3.And(toz(rate_out) == prod.f["rate"], toz(ts0) == t.f["ts_start"]))
         ctx.ensure("C10 ... on the freshly assembled (undelayed) window of that producer, carrying the graph state's own (possibly re-parametrised) delay distribution",
-                   z3.And(toz(aw.same(inp.f["seq"], wv.f["seq"])), z3.BoolVal(inp.f["delay_dist"] is prev_dd)))
+                   z3.And(seq_as_scheduled(inp.f["seq"], wv.f["seq"]), toz(aw.same(inp.f["ts_sent"], wv.f["ts_sent"])), toz(aw.same(inp.f["ts_recv"], wv.f["ts_recv"])), z3.BoolVal(inp.f["delay_dist"] is prev_dd)))
         ctx.ensure("C10 ... and the step sees exactly what apply_delay returns", z3.BoolVal(ss.f["inputs"].get("shadow") is DELAYED))
 
 
